@@ -709,10 +709,29 @@ package server
 // is left out other than by LIMIT/cursor), and DISTANCE is that same distance.
 //@ ghost scratch lastPushed int
 //@ ghost scratch lastDist float64
+// ---- the page contract of the scan writer (C11) -------------------------------------------------------
+// pushObject: an object that passes the test (MATCH and WHERE; C12) is counted and - unless only a count is asked for -
+// queued as an item; the walk is stopped by pushObject only when the page is full (hitLimit, with exactly `limit` items),
+// when the count reaches the limit for COUNT output, or on a WHERE evaluation error; an object that does not pass
+// changes nothing and never stops the walk. Together with the iterator contracts of Collection (the consumer sees
+// S[off], S[off+1], ... and the cursor is told off + elements consumed) this is what makes pages line up: the element at
+// which a page stops has been taken, and the next page starts right after it.
 //@ func scanWriter.pushObject
 //@   frame-by-effects
+//@   entry-assume sw != nil && sw.fkeys != nil && sw.count < 9223372036854775808 && sw.numberItems < 9223372036854775808
+//@   modifies steps, perCall
+//@   ensures [rejected-changes-nothing] !old(opts.noTest) && err == nil && !tOK(sw, old(opts.obj)) ==> keepGoing && sw.count == old(sw.count) && sw.numberItems == old(sw.numberItems) && sw.hitLimit == old(sw.hitLimit) && len(sw.filled) == len(old(sw.filled))
+//@   ensures [accepted-is-counted] err == nil && (old(opts.noTest) || tOK(sw, old(opts.obj))) ==> sw.count == old(sw.count) + 1
+//@   ensures [accepted-is-queued] err == nil && (old(opts.noTest) || tOK(sw, old(opts.obj))) && sw.output != outputCount ==> sw.numberItems == old(sw.numberItems) + 1 && len(sw.filled) == len(old(sw.filled)) + 1
+//@   ensures [stops-only-when-full] err == nil && sw.output != outputCount && !old(sw.hitLimit) ==> (keepGoing == !(sw.numberItems == sw.limit && (old(opts.noTest) || tOK(sw, old(opts.obj))))) && sw.hitLimit == !keepGoing
+//@   ensures [count-stops-at-limit] err == nil && sw.output == outputCount && (old(opts.noTest) || tOK(sw, old(opts.obj))) ==> keepGoing == (sw.count < sw.limit)
+//@   ensures [error-stops] err != nil ==> !keepGoing
+// writeFoot: the cursor handed back is the number of elements walked when the page was filled, and 0 otherwise
 //@ func scanWriter.writeFoot
 //@   frame-by-effects
+//@   entry-assume sw != nil && sw.wr != nil && sw.msg != nil && sw.fkeys != nil
+//@   modifies steps, perCall
+//@   at-call strconv.FormatUint#2 [cursor] arg0 == ite(sw.hitLimit, sw.numberIters, 0)
 //@ ghost scratch nbTree map[ref]int
 //@ ghost macro nbSeq(sw, sargs) = fromOff(rtNearby(nbTree), sw)
 //@ ghost macro nbDist(sw, k) = rtDist(nbTree, k + offOf(sw))
